@@ -240,6 +240,7 @@ def annotate_fn(text, item: Fn, log, where):
 
     # ghost inserts.  anchor forms:
     #   "@entry"                 start of the function body
+    #   "@exit"                  end of the function body (unit functions)
     #   "@loop:k:body"           start of the k-th loop's body
     #   "@loop-body:REGEX"       start of the body of the first loop whose header matches REGEX
     #   text, pos 'before'/'after'            exact offsets around the exact text
@@ -252,6 +253,10 @@ def annotate_fn(text, item: Fn, log, where):
             raise ValueError(f"{where}: ghost insert must be proof/assert/let ghost: {gt[:40]!r}")
         if anchor == "@entry":
             inserts.append((body_open + 1, "\n" + gt + "\n"))
+            continue
+        if anchor == "@exit":
+            # end of the function body, in front of its closing brace (for functions that return unit: the body's tail becomes a statement)
+            inserts.append((match_delim(m, body_open), "\n" + gt + "\n"))
             continue
         mb = re.match(r"@loop:(\d+):before$", anchor)
         if mb:
